@@ -3,7 +3,7 @@
    correspondence run (reference oracle on the implementation side). *)
 From Coq Require Import ZArith List Bool Lia.
 From MV Require Import Ast Eval Scalar Machine.
-From MV.Proofs Require Import Arith Logic Prim View OpsLocal Guards Drops DrainIt IntoIt FilterIt.
+From MV.Proofs Require Import Arith Logic Prim View OpsLocal Guards Drops DrainIt IntoIt FilterIt Core Refine DrainAbs.
 Import ListNotations.
 Open Scope Z_scope.
 
@@ -133,3 +133,27 @@ Theorem C10_drain_filter_vector_is_empty_while_the_iterator_lives :
 Proof. exact finv_vector_is_empty. Qed.
 
 Print Assumptions C10_drain_filter_next_follows_the_script.
+
+(* what the double-ended cursor yields plus what it leaves is a permutation of the selected range:
+   each selected element is yielded at most once, and none is invented *)
+Theorem C10_cursor_yields_each_selected_element_at_most_once :
+  forall steps w, Permutation.Permutation (somes (fst (cursor w steps)) ++ snd (cursor w steps)) w.
+Proof. exact cursor_perm. Qed.
+Print Assumptions C10_cursor_yields_each_selected_element_at_most_once.
+
+(* ... and the real Drain follows that cursor from creation to drop *)
+Theorem C10_drain_whole_life_follows_the_cursor :
+  forall cfg ncap, cfg_ok cfg -> needs_drop cfg = true ->
+  forall s v b bl bs be a e steps tmp,
+  vec_at s v b bl -> block_ok cfg bl -> owned s bl ->
+  resolve_pure bs be (h_len bl) = Some (a, e) -> 0 <= a ->
+  let l := velems bl in
+  let w := skipn (Z.to_nat a) (firstn (Z.to_nat e) l) in
+  let Q := fun s' =>
+    vabs cfg s' v (firstn (Z.to_nat a) l ++ skipn (Z.to_nat e) l) /\
+    (forall x, In x (somes (fst (cursor w steps))) -> ledger s' x = Out) /\
+    (forall x, In x (snd (cursor w steps)) -> ledger s' x = Dropped) /\
+    (forall x, ~ In x w -> ledger s' x = ledger s x) /\ next_elem s' = next_elem s in
+  post (drain_whole cfg ncap v bs be steps tmp s) (fun r s' => r = fst (cursor w steps) /\ Q s') Q.
+Proof. exact drain_abs. Qed.
+Print Assumptions C10_drain_whole_life_follows_the_cursor.
